@@ -54,6 +54,7 @@ func runC09(c *Ctx) {
 	c.L.Floor("matrix-scan-full", 2, "fill loops and the last-row scan (floor = half)")
 	c.checkStaleState("stale-iteration-state", "align")
 	c.L.Floor("stale-iteration-state", 2, "two listed state machines of package align plus the scope line")
+	c.checkArgNameOrder("arg-name-order", "align")
 }
 
 func isUint8(t types.Type) bool {
